@@ -14,7 +14,7 @@ P = {
          "exploration over generated histories up to ~370 children / 8 groups; no absence claim"),
  'C03': ("stateful PBT: ownership ledger of the shared waker block (probes H1) + poisoned quarantine, over proptest histories, generated thread schedules (shuttle) and real threads under Miri",
          "block alloc/release and every waker-vtable entry are reported by add-only probes before anything is dereferenced; ledger rules: released exactly once, only with zero outstanding clones, never while its group is live, no vtable entry into a released block, nothing leaked at the end of the case - neither a block nor a task waker cached in a block's header (the harness counts its own task-waker objects); all death orders of collection and wakers are generated",
-         "ledger + write-after-free detection single-threaded (E1) and under generated SC schedules (E2); data races and ordering bugs proper only through Miri on generated real-thread scenarios (E4: 8 scheduler seeds quick, 48 thorough); a non-atomic read-modify-write inside waker_list.rs cannot be split by the add-only scheduling hook (found by Miri instead)"),
+         "ledger + write-after-free detection single-threaded (E1) and under generated SC schedules (E2); data races and ordering bugs proper only through Miri on generated real-thread scenarios (E4: 12 scheduler seeds x 12 scenarios quick, 48 x 24 thorough; the owner also pushes into just-vacated slots while stale wakers of them are in use); a non-atomic read-modify-write inside waker_list.rs cannot be split by the add-only scheduling hook (found by Miri instead)"),
  'C04': ("stateful PBT: proptest histories vs VecDeque reference model with seeded position counters (hook H2)",
          "ordered collections are compared after every poll with a deque model under push_back/push_front; both position counters are seeded anywhere including next to 0, 2^63 and usize::MAX so wrap and re-base paths run; ordered adapters must yield in upstream order; join outputs must sit at their input index",
          "exploration; counters are seeded through a verification-only setter, trusted to be equivalent to 2^63 real pushes"),
